@@ -58,7 +58,11 @@ func (c *compiler) ProcessForInStat(s ast.ForInStat) {
 
 	loopLbl := c.GetNewLabel()
 	must(c.EmitLabelNoLine(loopLbl))
+	endLbl := c.DeclareGotoLabelNoLine(breakLblName)
 
+	// The loop variables are local to each iteration: declare them in their
+	// own context so that closures capture fresh variables every time round.
+	c.PushContext()
 	nameAttribs := make([]ast.NameAttrib, len(s.Vars))
 	for i, name := range s.Vars {
 		nameAttribs[i] = ast.NewNameAttrib(name, nil, ast.NoAttrib)
@@ -84,10 +88,10 @@ func (c *compiler) ProcessForInStat(s ast.ForInStat) {
 		Lsrc: var1,
 		Rsrc: testReg,
 	})
-	endLbl := c.DeclareGotoLabelNoLine(breakLblName)
 	c.emitInstr(s, ir.JumpIf{Cond: testReg, Label: endLbl})
 	c.emitInstr(s, ir.Transform{Dst: varReg, Op: ops.OpId, Src: var1})
 	c.compileBlock(s.Body)
+	c.PopContext()
 
 	c.emitInstr(s, ir.Jump{Label: loopLbl})
 
